@@ -1394,7 +1394,7 @@ M("o8-roots-filtered-off-by-one", "C04", "fire O8", "src/circuit.rs",
         }""", "seed C04-c: the first emitted gate is never a root")
 
 # ---------------------------------------------------------------- C05
-M("s2-shift-left-operand-only-stamped", "C05", "fire S2", "src/check.rs",
+M("s2-shift-left-operand-only-stamped", "C03", "fire A12", "src/check.rs",
   """            Op::ShiftLeft | Op::ShiftRight => constrain_type(a, ty)?,""",
   """            Op::ShiftLeft | Op::ShiftRight => overwrite_ty_if_necessary(&mut a.ty, ty, false),""", "seed C05-a: literals inside a compound left operand of a shift keep their default width")
 M("s2-if-else-branch-not-constrained", "C05", "fire S2", "src/check.rs",
@@ -1730,15 +1730,6 @@ M2("l7-array-helper-chunks", "C09", "fire L7", [
     /// Encodes the literal as bits, looking up enum defs in the program.""")], "seed C09-d: helper decodes with chunks_exact(elem_size).take(size): zero-width elements panic")
 
 # ---------------------------------------------------------------- more seeds of batch seven as mutants
-M("s5-mul-by-zero-literal-width", "C05", "fire S5", "src/compile.rs",
-  """                        if n == 0 {
-                            continue;
-                        }
-                        if n < bits {""",
-  """                        if n == 0 {
-                            return vec![0; bits as usize];
-                        }
-                        if n < bits {""", "seed C05-c: x * 0 returns as many wires as the literal's written suffix has bits")
 M("g5-eval-bulk-copies-inputs", "C16", "fire G5", "src/register_circuit.rs",
   """        let mut regs = vec![false; self.max_reg_count];
 """,
